@@ -40,7 +40,15 @@ class Run(object):
         self.analysed = {}     # free-form counters
         self.notes = []
         self.t0 = time.time()
-        self.current_rule = None
+        self._current_rule = None
+
+    @property
+    def current_rule(self): return self._current_rule
+
+    @current_rule.setter
+    def current_rule(self, rule):
+        self._current_rule = rule
+        if self.prog is not None: self.prog.current_rule = rule      # functions fetched from now on belong to this rule
 
     # -- recording ---------------------------------------------------------
     def rule(self, rule, doc, floor=None):
@@ -82,6 +90,7 @@ class Run(object):
 
     def guarded(self, rule, fn, *a, **kw):
         """Run one rule; an AnalysisError / internal error becomes *unknown*."""
+        if self.prog is not None: self.prog.current_rule = rule
         try:
             fn(self, *a, **kw)
         except AnalysisError as e:
@@ -105,6 +114,19 @@ class Run(object):
                     rule, 'instance-floor', UNKNOWN, None,
                     'rule matched %d anchors, floor confirmed by hand is %d '
                     '(a rule that matches nothing passes vacuously)' % (n, fl)))
+        # vocabulary guard: a violation from a rule whose functions lost a local name the rules were written
+        # against is not believed (a rename is behaviour-preserving) -> unknown
+        from . import vocab
+        vt = vocab.load()
+        cache = {}
+        for o in self.obs:
+            if o.status != VIOLATED: continue
+            if o.rule not in cache: cache[o.rule] = vocab.missing_for(self, o.rule, vt)
+            if cache[o.rule]:
+                q, gone = cache[o.rule][0]
+                o.status = UNKNOWN
+                o.detail = 'not decided: local name(s) %s of %s that rule %s was written against no longer exist (renamed?); ' \
+                           'undecided finding was: %s' % (gone, q, o.rule, o.detail)
         viol = [o for o in self.obs if o.status == VIOLATED]
         unk = [o for o in self.obs if o.status == UNKNOWN]
         okc = [o for o in self.obs if o.status == OK]
